@@ -173,6 +173,28 @@ thread_local! {
     pub static LAST_ERROR: std::cell::RefCell<String> = std::cell::RefCell::new(String::new());
 }
 
+/// Payload of the panic raised by [`Must::must`]: a query the property says is always answered was
+/// refused. `main` turns it into a violation `<property>/query/<what>/refused` (the shard's remaining
+/// histories are lost, the verdict is not).
+pub struct QueryRefused {
+    pub what: String,
+    pub err: String,
+}
+
+pub trait Must<T> {
+    /// For read-only queries that the reference model says must be answered.
+    fn must(self, what: &str) -> T;
+}
+
+impl<T> Must<T> for Result<T, Fail> {
+    fn must(self, what: &str) -> T {
+        match self {
+            Ok(v) => v,
+            Err(e) => std::panic::panic_any(QueryRefused { what: what.to_string(), err: format!("{e:?} ({})", last_error()) }),
+        }
+    }
+}
+
 /// Raw host error of the last failed invocation (diagnostics only).
 pub fn last_error() -> String {
     LAST_ERROR.with(|l| l.borrow().clone())
